@@ -1,10 +1,13 @@
 /-
   GffModel.Proto — the line protocol of the correspondence driver (DESIGN.md §2.3).
   One command per line, one reply line per command.  Strings travel as dot-joined hexadecimal code
-  points (`-` = empty string).  Anything unparsable yields `bad-op` — never a default.
+  points (`-` = empty string, `~` = None).  Lists: `_` or `,`-joined.  Attribute mappings: `_` or
+  `;`-joined `key=list`.  Dialects: `|`-joined fields.  Anything unparsable yields `bad-op` — never a
+  default.
 -/
 import GffModel.Str
 import GffModel.Bins
+import GffModel.Helpers
 
 namespace GffModel
 namespace Proto
@@ -24,16 +27,115 @@ def parseBool : String → Option Bool
   | "0" => some false
   | _ => none
 
+def encBool (b : Bool) : String := if b then "1" else "0"
+
+def encList (l : List Str) : String :=
+  if l.isEmpty then "_" else ",".intercalate (l.map Str.encode)
+
+def decList? (w : String) : Option (List Str) :=
+  if w = "_" then some [] else (w.splitOn ",").mapM Str.decode?
+
+def encAttrs (a : Attrs) : String :=
+  if a.isEmpty then "_" else ";".intercalate (a.map (fun (k, v) => Str.encode k ++ "=" ++ encList v))
+
+def decAttrs? (w : String) : Option Attrs :=
+  if w = "_" then some [] else
+  (w.splitOn ";").mapM (fun item =>
+    match item.splitOn "=" with
+    | [k, v] => do pure ((← Str.decode? k), (← decList? v))
+    | _ => none)
+
+def encDialect (d : Dialect) : String :=
+  "|".intercalate [encBool d.leadingSemicolon, encBool d.trailingSemicolon, encBool d.quoted,
+    Str.encode d.fieldSep, Str.encode d.kvSep, Str.encode d.multiSep, Str.encode d.fmt,
+    encBool d.repeatedKeys, encList d.order]
+
+def decDialect? (w : String) : Option Dialect :=
+  match w.splitOn "|" with
+  | [l, t, q, fs, kv, ms, fmt, r, o] => do
+    pure { leadingSemicolon := ← parseBool l, trailingSemicolon := ← parseBool t, quoted := ← parseBool q,
+           fieldSep := ← Str.decode? fs, kvSep := ← Str.decode? kv, multiSep := ← Str.decode? ms,
+           fmt := ← Str.decode? fmt, repeatedKeys := ← parseBool r, order := ← decList? o }
+  | _ => none
+
+/-- `none` or a dialect -/
+def decOptDialect? (w : String) : Option (Option Dialect) :=
+  if w = "none" then some none else (decDialect? w).map some
+
+def encErr (e : PyErr) : String := "err " ++ e.name
+
+def encOptInt : Option Int → String
+  | none => "~"
+  | some i => toString i
+
+def encBin : Option Bins.BinResult → String
+  | none => "~"
+  | some (.int b) => toString b
+  | some (.set _) => "set"
+
 def consts : String :=
   s!"consts first_shift={Bins.firstShift} next_shift={Bins.nextShift} offsets={Bins.offsets} max_chrom={Bins.maxChrom} off_gff={Bins.CoordFmt.gff.off} off_bed={Bins.CoordFmt.bed.off}"
+
+def constsParser : String :=
+  let q := (List.range 128).filter (fun n => Quote.toQuote (Char.ofNat n))
+  s!"consts to_quote={q} dialect={encDialect Dialect.default}"
+
+def encFeature (f : Feature) (ignoreEsc : Bool) : String :=
+  let printed := match f.print ignoreEsc with
+    | .ok s => Str.encode s
+    | .error e => "!" ++ e.name
+  " ".intercalate [Str.encode f.seqid, Str.encode f.source, Str.encode f.ftype, encOptInt f.start,
+    encOptInt f.stop, Str.encode f.score, Str.encode f.strand, Str.encode f.frame, encAttrs f.attrs,
+    encList f.extra, encBin f.bin, encDialect f.dialect, printed]
+
+def bits (p : Char → Bool) (s : Str) : String := String.ofList (s.map (fun c => if p c then '1' else '0'))
+
+/-- `choose` arguments: pairs `<dialect> <keys>` -/
+def decChoose? : List String → Option (List (Dialect × List Str))
+  | [] => some []
+  | d :: k :: rest => do
+    let d ← decDialect? d
+    let k ← decList? k
+    let r ← decChoose? rest
+    pure ((d, k) :: r)
+  | _ => none
 
 /-- stateless commands -/
 def stepPure (ws : List String) : Option String :=
   match ws with
   | ["consts"] => some consts
+  | ["consts-parser"] => some constsParser
   | ["bins", s, e, f, o] => do
       let s ← parseIntW s; let e ← parseIntW e; let f ← parseFmt f; let o ← parseBool o
       pure (Bins.bins s e f o).render
+  | ["split", d, s, ie] => do
+      let d ← decOptDialect? d; let s ← Str.decode? s; let ie ← parseBool ie
+      match Parser.splitKeyvals s d ie with
+      | .ok (a, d') => pure s!"ok {encAttrs a} {encDialect d'}"
+      | .error e => pure (encErr e)
+  | ["recon", d, a, keep, sort, ie] => do
+      let d ← decOptDialect? d; let a ← decAttrs? a
+      let keep ← parseBool keep; let sort ← parseBool sort; let ie ← parseBool ie
+      match Parser.reconstruct a d keep sort ie with
+      | .ok s => pure s!"ok {Str.encode s}"
+      | .error e => pure (encErr e)
+  | ["line", d, strict, keep, ie, s] => do
+      let d ← decOptDialect? d; let strict ← parseBool strict; let keep ← parseBool keep
+      let ie ← parseBool ie; let s ← Str.decode? s
+      match featureFromLine s d strict keep ie with
+      | .ok f => pure ("ok " ++ encFeature f ie)
+      | .error e => pure (encErr e)
+  | ["unquote", s] => do let s ← Str.decode? s; pure (Str.encode (Quote.unquote s))
+  | ["quote", s] => do let s ← Str.decode? s; pure (Str.encode (Quote.quoteStr s))
+  | ["chars", "space", s] => do let s ← Str.decode? s; pure (bits Str.isPySpace s)
+  | ["chars", "word", s] => do let s ← Str.decode? s; pure (bits isWordChar s)
+  | ["chars", "linebreak", s] => do let s ← Str.decode? s; pure (bits Str.isLineBreak s)
+  | "choose" :: rest => do
+      let fs ← decChoose? rest
+      pure (encDialect (Helpers.chooseDialect fs))
+  | ["int", s] => do
+      let s ← Str.decode? s
+      pure (match Str.parseInt? s with | some i => toString i | none => "err ValueError")
   | _ => none
 
 end Proto
